@@ -52,9 +52,23 @@ type model struct {
 	msgs     []*mmsg // every message ever, by key
 	// names whose subscription a connector MailboxDeleted removed; cleared when a live mailbox takes the name
 	unsub map[string]bool
+	// the subscriptions a client DELETE leaves behind (table deleted_subscriptions: name and remote id both unique)
+	delSubs map[string]imap.MailboxID
 }
 
-func newModel() *model { return &model{unsub: map[string]bool{}} }
+func newModel() *model { return &model{unsub: map[string]bool{}, delSubs: map[string]imap.MailboxID{}} }
+
+// delSubClash tells whether a subscription kept under ANOTHER name carries the mailbox's remote id: deleting the
+// mailbox then has to replace that entry (listed finding C06-delete-recreated-mailbox-unique-subscription).
+func (m *model) delSubClash(b *mbox) bool {
+	for n, r := range m.delSubs {
+		if r == b.rid && n != b.name {
+			return true
+		}
+	}
+
+	return false
+}
 
 func (m *model) addBox(rid imap.MailboxID, name string) *mbox {
 	b := &mbox{key: len(m.allBoxes), rid: rid, name: name}
@@ -286,6 +300,14 @@ func (m *model) canon() uint64 {
 
 	sort.Strings(names)
 	fmt.Fprintf(h, "U%v", names)
+
+	names = names[:0]
+	for n, r := range m.delSubs {
+		names = append(names, n+"="+string(r))
+	}
+
+	sort.Strings(names)
+	fmt.Fprintf(h, "D%v", names)
 
 	return h.Sum64()
 }
